@@ -310,3 +310,29 @@ Definition vcf_view (buf : list N) (ends : list nat) : list (list N) :=
 Definition run_vcf_view_obs (cap : nat) (s : source) :=
   let '(l, pos) := run_vcf_obs cap s in
   (map (fun x => (fst (fst x), vcf_view (snd (fst x)) (snd x))) l, pos).
+
+(* the raw slices the lazy sam::Record accessors return: name ("*" = none, printed as empty), cigar,
+   sequence, quality scores ("*" reads as ""), data (everything after the quality scores) *)
+Definition smiss (s : list N) : list N := match s with [42%N] => [] | _ => s end.
+Definition sam_view (buf : list N) (ends : list nat) : list (list N) :=
+  let e i := nth i ends 0 in
+  [ smiss (vslice buf 0 (e 0)); smiss (vslice buf (e 4) (e 5)); smiss (vslice buf (e 8) (e 9));
+    smiss (vslice buf (e 9) (e 10)); skipn (e 10) buf ].
+Definition run_sam_view_obs (cap : nat) (s : source) :=
+  let '(l, pos) := run_sam_obs cap s in
+  (map (fun x => (fst (fst x), sam_view (snd (fst x)) (snd x))) l, pos).
+
+(* ---- read_line to the end of the input (gtf::io::Reader::read_line; the line step of every
+   read_line-based record reader): (bytes consumed, stripped line) per call until Ok(0) *)
+Fixpoint read_lines_all (cap k fuel : nat) (st : bsrc) : list (nat * list N) * bsrc :=
+  match k with
+  | 0 => ([], st)
+  | Datatypes.S k' =>
+    match read_line src_read cap fuel st with
+    | (0, _, _, st') => ([], st')
+    | (n, l, _, st') => let '(ls, st'') := read_lines_all cap k' fuel st' in ((n, l) :: ls, st'')
+    end
+  end.
+
+Definition run_read_lines (cap : nat) (s : source) : list (nat * list N) * bsrc :=
+  read_lines_all cap (Datatypes.S (length (s_data s))) (b_fuel ([], s) 0) ([], s).
